@@ -81,6 +81,60 @@ def loop_carried(index, rep):
                           and any(isinstance(a_, ast.Name) and a_.id == name for a_ in list(c.args) + [k.value for k in c.keywords])]
                 if changed and handed:
                     bad.append(f"`{name}` (created line {st0.lineno}, changed line {changed[0].lineno}, handed to {norm_src(handed[0].func)[:40]} line {handed[0].lineno})")
+            # the same for a plain setting: bound before the loop, re-bound in the loop only under a condition (no else, no unconditional
+            # re-binding earlier in the body) and handed to the run of the iteration - once the condition has held, every later iteration
+            # keeps that value instead of the one from before the loop
+            bound_before = {}
+            for st in walk_no_nested(fn):
+                if isinstance(st, ast.Assign) and st.lineno < lp.lineno and not any(st is x for x in ast.walk(lp)):
+                    for t in st.targets:
+                        for x in ([t] if isinstance(t, ast.Name) else (t.elts if isinstance(t, ast.Tuple) else [])):
+                            if isinstance(x, ast.Name):
+                                bound_before[x.id] = st
+            for a_ in fn.args.args:
+                bound_before.setdefault(a_.arg, fn)
+            for name, st0 in bound_before.items():
+                if name in before:
+                    continue
+                rebinds = [s_ for s_ in ast.walk(lp) if isinstance(s_, ast.Assign) and any(
+                    isinstance(x, ast.Name) and x.id == name for t in s_.targets for x in ([t] if isinstance(t, ast.Name) else (t.elts if isinstance(t, ast.Tuple) else [])))]
+                if not rebinds or (isinstance(lp.target, ast.Name) and lp.target.id == name):
+                    continue
+
+                def guards(s_):
+                    out_, n_ = [], getattr(s_, "_parent", None)
+                    while n_ is not None and n_ is not lp:
+                        if isinstance(n_, (ast.If, ast.Try, ast.For, ast.While)):
+                            out_.append(n_)
+                        n_ = getattr(n_, "_parent", None)
+                    return out_
+                uncond = [s_ for s_ in rebinds if not guards(s_)]
+                if uncond:
+                    continue
+                # every re-binding sits under an `if`; some branch of that `if` leaves the name as the previous iteration left it
+                covered = False
+                for s_ in rebinds:
+                    g_ = guards(s_)
+                    if len(g_) == 1 and isinstance(g_[0], ast.If):
+                        branch_sets = []
+                        node_ = g_[0]
+                        while True:
+                            branch_sets.append(any(x is r_ for r_ in rebinds for b_ in node_.body for x in ast.walk(b_)))
+                            if len(node_.orelse) == 1 and isinstance(node_.orelse[0], ast.If):
+                                node_ = node_.orelse[0]
+                                continue
+                            branch_sets.append(any(x is r_ for r_ in rebinds for b_ in node_.orelse for x in ast.walk(b_)) if node_.orelse else False)
+                            break
+                        if all(branch_sets):
+                            covered = True
+                if covered:
+                    continue
+                in_rebind = {id(x) for r_ in rebinds for x in ast.walk(r_)}
+                used = [x for x in ast.walk(lp) if isinstance(x, ast.Name) and x.id == name and isinstance(x.ctx, ast.Load) and id(x) not in in_rebind
+                        and not any(isinstance(p_, ast.Call) and (dotted(p_.func) or "") == "print" for p_ in [getattr(x, "_parent", None)])]
+                if used:
+                    bad.append(f"`{name}` (set before the loop, re-bound only under a condition at line {rebinds[0].lineno}, used at line "
+                               f"{used[0].lineno})")
         rep.check(not bad, rule, f"{q}: nothing carried from one iteration's run into the next",
                   "a container made before the loop is changed in every iteration and handed to the run of that iteration - entries set for one "
                   "simulation / country are still there for the next: " + "; ".join(bad), loc=loc(rel, fn))
@@ -500,8 +554,22 @@ def reset(index, rep):
             break
     if i_first is None:
         raise AnalysisError("run_and_analyze_scenario: compute_parameters_first_round call not found")
-    early = [s for s in topr[:i_first] if not (isinstance(s, ast.Assign) and isinstance(s.value, (ast.Call, ast.Constant))
-                                              and (not isinstance(s.value, ast.Call) or dotted(s.value.func) in ("Interpreter", "Parameters", "Validator")))]
+    def harmless(s):
+        """a statement that cannot touch the shared settings: it builds the round objects, binds constants, prints, or asks the scenario
+        loader whether every option family was set (assertions over flags)"""
+        if isinstance(s, ast.If):
+            return all(harmless(x) for x in s.body + s.orelse) and not any(isinstance(c, ast.Call) for c in ast.walk(s.test))
+        if not isinstance(s, (ast.Assign, ast.Expr, ast.Pass)):
+            return False
+        for c in [c for c in ast.walk(s) if isinstance(c, ast.Call)]:
+            d = dotted(c.func) or ""
+            if d in ("Interpreter", "Parameters", "Validator", "print", "str", "len", "repr"):
+                continue
+            if isinstance(c.func, ast.Attribute) and c.func.attr == "check_all_set" and not c.args and not c.keywords:
+                continue
+            return False
+        return True
+    early = [s for s in topr[:i_first] if not harmless(s)]
     rep.check(not early, rule, "run:first-round-first",
               "run_and_analyze_scenario does work before compute_parameters_first_round re-establishes the shared settings: " +
               "; ".join(norm_src(s)[:50] for s in early[:3]), loc=loc(RUN, ras))
